@@ -131,9 +131,9 @@ func recC15(c *ctx) {
 		case !addRand && v10:
 			pi = ecvrf.Prove_v10(sk, alpha)
 		case addRand && !v10:
-			pi, _ = ecvrf.ProveWithAddedRandomness(bytes.NewReader(z), sk, alpha)
+			pi, _ = ecvrf.ProveWithAddedRandomness(r.Entropy(z), sk, alpha)
 		default:
-			pi, _ = ecvrf.ProveWithAddedRandomness_v10(bytes.NewReader(z), sk, alpha)
+			pi, _ = ecvrf.ProveWithAddedRandomness_v10(r.Entropy(z), sk, alpha)
 		}
 		tailOK := bytes.Equal(skBuf[64:], bytes.Repeat([]byte{0xa7}, 96)) && bytes.Equal(alBuf[len(alpha):], bytes.Repeat([]byte{0xa7}, 32)) &&
 			bytes.Equal(skBuf[:32], seed)
